@@ -443,6 +443,7 @@ func c06(r *Report) {
 
 	r.Guard("C06.R7", "without a host name the handshake is refused: every GetCertificate callback tests the name for emptiness before issuing", func() {
 		tlsConfigFreshRule(r)
+		connectAuthorityKeptRule(r)
 		// the configuration a tunnel is served with is built from the MITM config in force at
 		// that moment: tls.Server takes the direct result of p.mitm.TLSForHost(...), not a
 		// config remembered from an earlier tunnel (which SetMITM would not replace)
@@ -692,4 +693,32 @@ func tlsConfigFreshRule(r *Report) {
 		}
 		r.Decide("flow", "(*M/mitm."+fname+"): returns a configuration built in this call", freshCfg, "return &tls.Config{...}", "the TLS configuration is taken from a cache: its GetCertificate callback closes over the fallback host of the call that built it, so a later tunnel to another authority, whose client sends no SNI, is answered with a certificate for the earlier tunnel's host", tf.Pos())
 	}
+}
+
+// connectAuthorityKeptRule: the authority the client named in its CONNECT is
+// what certificates are forged for when there is no SNI: the CONNECT handler
+// does not overwrite Request.Host (for instance with a URL host that a request
+// modifier rewrote to retarget the tunnel). Shared by C06.R7 and C05.R6.
+func connectAuthorityKeptRule(r *Report) {
+	hcr := r.W.Fn("", "Proxy.handleConnectRequest")
+	if hcr == nil || hcr.Blocks == nil {
+		r.Undecided("M.Proxy.handleConnectRequest", "UNRESOLVED")
+		return
+	}
+	r.Touch(hcr)
+	var bad ssa.Instruction
+	for _, f := range append([]*ssa.Function{hcr}, hcr.AnonFuncs...) {
+		for _, in := range instrs(f) {
+			if st, isSt := in.(*ssa.Store); isSt {
+				if fa, isFa := st.Addr.(*ssa.FieldAddr); isFa && fieldObj(fa).Name() == "Host" && namedOf(fa.X.Type()) == "Request" {
+					bad = in
+				}
+			}
+		}
+	}
+	pos := hcr.Pos()
+	if bad != nil {
+		pos = bad.Pos()
+	}
+	r.Decide("flow", "(*M.Proxy).handleConnectRequest leaves the CONNECT authority as the client sent it", bad == nil, "no store to Request.Host", "the CONNECT handler overwrites req.Host (with the URL host a modifier rewrote): without SNI the certificate is forged for the rewritten upstream, not for the authority the client named and will verify", pos)
 }
